@@ -39,6 +39,7 @@ def enumerate_cases(tier, seed):
     for e in [(), (2,)]:
         # restricted support: batches mix in-support and out-of-support (NaN -> -inf) elements
         cases.append({"id": f"lognormal|event={e}", "kind": "lognormal", "event": list(e), "cond": None, "x64": True, "seed": seed})
+    cases.append({"id": "cond-mixture|event=(2,)|cond=(2,)", "kind": "condmix", "event": [2], "cond": [2], "x64": True, "seed": seed})
     for dim in (2, 3):
         for c in (None, (2,)):
             cases.append({"id": f"coupling|dim={dim}|cond={c}", "kind": "coupling", "event": [dim], "cond": None if c is None else list(c),
@@ -71,6 +72,20 @@ def build(case):
             return base, loc, scale, None
         net = _cond_map(e, c, 2.0)
         return D.Transformed(base, B.AdditiveCondition(net, e, c)), loc, scale, net
+    if case["kind"] == "condmix":
+        import equinox as eqx
+
+        def comp(shift):
+            return D.Transformed(D.Normal(jnp.asarray([0.3, -0.2]) + shift, jnp.asarray([0.7, 1.1])), B.AdditiveCondition(_cond_map(e, c, 2.0), e, c))
+
+        return D.VmapMixture(eqx.filter_vmap(comp)(jnp.asarray([-2.0, 0.0, 3.0])), jnp.asarray([0.2, 0.5, 0.3])), None, None, None
+    if case["kind"] == "condmix":
+        import equinox as eqx
+
+        def comp(shift):
+            return D.Transformed(D.Normal(jnp.asarray([0.3, -0.2]) + shift, jnp.asarray([0.7, 1.1])), B.AdditiveCondition(_cond_map(e, c, 2.0), e, c))
+
+        return D.VmapMixture(eqx.filter_vmap(comp)(jnp.asarray([-2.0, 0.0, 3.0])), jnp.asarray([0.2, 0.5, 0.3])), None, None, None
     if case["kind"] == "lognormal":
         loc = jnp.asarray((0.3 * _pat(n, 1)).reshape(e))
         scale = jnp.asarray((0.5 + 0.35 * np.arange(n)).reshape(e))
@@ -183,8 +198,8 @@ def run_case(case):
             elif case["kind"] == "affine":
                 shift = 0.0 if net is None else np.asarray(jax.vmap(net)(jnp.asarray(Cb.reshape((-1,) + c))), float).reshape(lead + e)
                 z = (s - np.asarray(loc) - shift) / np.asarray(scale)
-            if case["kind"] == "coupling":
-                z = s  # coupling flow: raw samples must already be pairwise distinct
+            if case["kind"] in ("coupling", "condmix"):
+                z = s  # raw samples must already be pairwise distinct
             flat = z.reshape(prod(lead), -1)[:, 0]
             if len(np.unique(np.round(flat, 9))) != len(flat):
                 add("sample|repeated-draw", f"{case['id']}: sample_shape {ss}, condition batch {bc}: batch elements share a base draw (standardised residuals {flat.tolist()})")
